@@ -164,6 +164,16 @@ func replay(c *runner.Ctx, raw json.RawMessage) {
 		m.do("decode-file", "DecodeFile[1-byte reader]", func() { _, _ = mp4.DecodeFile(oneByteReader{bytes.NewReader(in)}) })
 		return
 	}
+	if d.Op == "only:decode-box" || d.Op == "only:decode-file" {
+		// reduced replay for heavy witnesses: one slice-reader decode only
+		m := &meter{c: c, in: in, name: d.Seed, desc: d.Mut, depth: -1}
+		if d.Op == "only:decode-box" {
+			m.do("decode-box", "DecodeBoxSR", func() { _, _ = mp4.DecodeBoxSR(0, bits.NewFixedSliceReader(in)) })
+		} else {
+			m.do("decode-file", "DecodeFileSR", func() { _, _ = mp4.DecodeFileSR(bits.NewFixedSliceReader(in)) })
+		}
+		return
+	}
 	if d.Op == "only:info" {
 		// reduced replay for heavy witnesses: box-level decode and Info only
 		m := &meter{c: c, in: in, name: d.Seed, desc: d.Mut, depth: -1}
